@@ -190,12 +190,30 @@ def _params(fn, n, what):
 
 
 class _Env:
-    """names of the locals of the function being translated + the abstract inputs a
-    condition may mention"""
+    """What a condition of the function being translated may mention: expressions (by
+    their syntax) standing for an abstract input of type unit / integer / bool, the spelling
+    of DateUnit and unit_weight in that module, and what a message may interpolate."""
 
-    def __init__(self, fn, var=None, period=None, allowed=()):
+    def __init__(self, fn, var=None, period=None, allowed=(), units=None, ints=None, bools=None,
+                 date_unit="periods.DateUnit", weight="periods.unit_weight", msg_ok=()):
         self.fn, self.var, self.period, self.allowed = fn, var, period, set(allowed)
         self.used = set()
+        self.date_unit, self.weight = date_unit, weight
+        u, n, m = {}, {}, []
+        if var is not None:
+            u[f"{var}.definition_period"] = "def_unit"
+            m += [f"{var}.name", f"{var}.definition_period"]
+        if period is not None:
+            u[f"{period}.unit"] = "req_unit"
+            n[f"{period}.size"] = "size"
+            m += [period]
+        u.update(units or {})
+        n.update(ints or {})
+        key = lambda src: ast.dump(ast.parse(src, mode="eval").body)
+        self.units = {key(k): v for k, v in u.items()}
+        self.ints = {key(k): v for k, v in n.items()}
+        self.bools = {key(k): v for k, v in (bools or {}).items()}
+        self.msg_ok = {key(k) for k in list(m) + list(msg_ok)}
 
     def sym(self, s, node):
         if s not in self.allowed:
@@ -204,29 +222,27 @@ class _Env:
         return s
 
 
-def _date_unit(node):
-    """periods.DateUnit.X -> Coq constructor, or None"""
-    if (isinstance(node, ast.Attribute) and node.attr in UNIT and _is(node.value, "periods.DateUnit")):
+def _date_unit(node, env):
+    """<DateUnit>.X -> Coq constructor, or None"""
+    if (isinstance(node, ast.Attribute) and node.attr in UNIT and _is(node.value, env.date_unit)):
         return UNIT[node.attr]
     return None
 
 
 def _unit_expr(node, env):
     """an expression of type DateUnit, or None"""
-    u = _date_unit(node)
+    u = _date_unit(node, env)
     if u is not None:
         return u
-    if isinstance(node, ast.Attribute) and isinstance(node.value, ast.Name):
-        if env.var is not None and node.value.id == env.var and node.attr == "definition_period":
-            return env.sym("def_unit", node)
-        if env.period is not None and node.value.id == env.period and node.attr == "unit":
-            return env.sym("req_unit", node)
+    k = ast.dump(node)
+    if k in env.units:
+        return env.sym(env.units[k], node)
     return None
 
 
 def _weight_expr(node, env):
-    """periods.unit_weight(<unit expr>), or None"""
-    if (isinstance(node, ast.Call) and _is(node.func, "periods.unit_weight")
+    """unit_weight(<unit expr>), or None"""
+    if (isinstance(node, ast.Call) and _is(node.func, env.weight)
             and len(node.args) == 1 and not node.keywords):
         u = _unit_expr(node.args[0], env)
         if u is None:
@@ -236,10 +252,10 @@ def _weight_expr(node, env):
 
 
 def _int_expr(node, env):
-    """period.size or an integer literal, or None"""
-    if (isinstance(node, ast.Attribute) and isinstance(node.value, ast.Name)
-            and env.period is not None and node.value.id == env.period and node.attr == "size"):
-        return env.sym("size", node)
+    """an integer input (period.size ...) or an integer literal, or None"""
+    k = ast.dump(node)
+    if k in env.ints:
+        return env.sym(env.ints[k], node)
     if isinstance(node, ast.Constant) and type(node.value) is int:
         return f"({node.value})%Z"
     if (isinstance(node, ast.UnaryOp) and isinstance(node.op, ast.USub)
@@ -249,9 +265,9 @@ def _int_expr(node, env):
 
 
 def _unit_list(node, env):
-    """periods.DateUnit.isoformat / .isocalendar, sums of them, tuples of units -> Coq list, or None"""
+    """<DateUnit>.isoformat / .isocalendar, sums of them, tuples of units -> Coq list, or None"""
     if isinstance(node, ast.Attribute) and node.attr in ("isoformat", "isocalendar") \
-            and _is(node.value, "periods.DateUnit"):
+            and _is(node.value, env.date_unit):
         return f"units_{node.attr}"
     if isinstance(node, ast.BinOp) and isinstance(node.op, ast.Add):
         a, b = _unit_list(node.left, env), _unit_list(node.right, env)
@@ -259,7 +275,7 @@ def _unit_list(node, env):
             return f"({a} ++ {b})"
         return None
     if isinstance(node, ast.Tuple):
-        us = [_date_unit(e) for e in node.elts]
+        us = [_date_unit(e, env) for e in node.elts]
         if all(u is not None for u in us):
             return "[" + "; ".join(us) + "]"
     return None
@@ -267,6 +283,8 @@ def _unit_list(node, env):
 
 def _cond(node, env):
     """a Python condition over the abstract inputs -> Coq term of type bool"""
+    if ast.dump(node) in env.bools:
+        return env.sym(env.bools[ast.dump(node)], node)
     if isinstance(node, ast.BoolOp):
         op = "andb" if isinstance(node.op, ast.And) else "orb"
         parts = [_cond(v, env) for v in node.values]
@@ -297,7 +315,7 @@ def _cond(node, env):
                 return "(" + ZCMP[type(op)].format(a, b) + ")"
             # period.size <cmp> literal
             a, b = _int_expr(l, env), _int_expr(r, env)
-            if a is not None and b is not None and "size" in (a, b):
+            if a is not None and b is not None and not (a.startswith("(") and b.startswith("(")):
                 return "(" + ZCMP[type(op)].format(a, b) + ")"
     raise TranslationError(f"{_where(env.fn, node)}: condition '{_src(node)}' is not of a known form")
 
@@ -310,14 +328,8 @@ def _message(node, env):
         for v in node.values:
             if isinstance(v, ast.Constant) and isinstance(v.value, str):
                 continue
-            ok = False
-            if isinstance(v, ast.FormattedValue) and v.conversion == -1 and v.format_spec is None:
-                e = v.value
-                if isinstance(e, ast.Name) and e.id in (env.period,):
-                    ok = True
-                if (isinstance(e, ast.Attribute) and isinstance(e.value, ast.Name)
-                        and e.value.id == env.var and e.attr in ("name", "definition_period")):
-                    ok = True
+            ok = (isinstance(v, ast.FormattedValue) and v.conversion == -1 and v.format_spec is None
+                  and ast.dump(v.value) in env.msg_ok)
             if not ok:
                 raise TranslationError(f"{_where(env.fn, v)}: message part '{_src(v)}' is not expected")
         return True
@@ -629,16 +641,86 @@ def guard_dispatch():
 GUARDS_HEADER = [
     "(* GENERATED by harness/gen_tables.py from /repo sources - do not edit. *)",
     "From Coq Require Import ZArith List Bool.",
-    "From Verif Require Import Base Tables.",
+    "From Verif Require Import Base Tables GuardsTypes.",
     "Import ListNotations.",
     "Open Scope Z_scope.",
     "",
-    "(* the names the decisions below choose among *)",
-    "Inductive named_period := NThisYear | NFirstMonth | NFirstDay | NFirstWeek | NFirstWeekday.",
-    "Inductive size_fn := SInYears | SInMonths | SInDays | SInWeeks | SInWeekdays.",
-    "Inductive dispatch := DPlain | DAdd | DDivide | DIncompatible | DInvalid.",
-    "",
 ]
+
+
+# ----------------------------------------------------------------------------
+# Period.get_subperiods -> coq/gen/GuardsPeriod.v
+# ----------------------------------------------------------------------------
+
+PER = "openfisca_core/periods/period_.py"
+
+
+def guard_subperiods():
+    what = "get_subperiods"
+    tree = _parse(PER)
+    _require_import(tree, PER, None, "helpers", level=1)
+    _require_import(tree, PER, "date_unit", "DateUnit", level=1)
+    _no_rebinding(tree, PER, {"helpers", "DateUnit", "ValueError", "range"})
+    htree = _parse("openfisca_core/periods/helpers.py")
+    _func(htree, "unit_weight")            # the function Tables.unit_weight is read from
+    fn = _func(tree, what, cls="Period")
+    me, unit = _params(fn, 2, what)
+    env = _Env(what, allowed=("self_unit", "sub_unit"), units={f"{me}.unit": "self_unit", unit: "sub_unit"},
+               date_unit="DateUnit", weight="helpers.unit_weight", msg_ok=(f"{me}.unit", unit))
+    chain, rest = _guard_chain(_body(fn), env)
+    if not chain:
+        raise TranslationError(f"{what}: no guard found")
+    envc = _Env(what, allowed=("sub_unit",), units={unit: "sub_unit"}, date_unit="DateUnit",
+                weight="helpers.unit_weight", msg_ok=(f"{me}.unit", unit))
+    lines = []
+    k = 0
+    while k < len(rest) and isinstance(rest[k], ast.If):
+        n = rest[k]
+        if n.orelse or len(n.body) != 1 or not isinstance(n.body[0], ast.Return):
+            raise TranslationError(f"{_where(what, n)}: expected 'if unit == DateUnit.X: return [...]'")
+        c = _cond(n.test, envc)
+        v = n.body[0].value
+        plan = None
+        if (isinstance(v, ast.ListComp) and len(v.generators) == 1 and not v.generators[0].ifs
+                and not v.generators[0].is_async and isinstance(v.generators[0].target, ast.Name)):
+            g = v.generators[0]
+            i = g.target.id
+            e = v.elt
+            if (i not in (me, unit) and isinstance(e, ast.Call) and isinstance(e.func, ast.Attribute)
+                    and e.func.attr == "offset" and isinstance(e.func.value, ast.Attribute)
+                    and _is(e.func.value.value, me) and e.func.value.attr in NAMED_PERIOD
+                    and len(e.args) == 2 and not e.keywords and _is(e.args[0], i)
+                    and _date_unit(e.args[1], envc) is not None
+                    and isinstance(g.iter, ast.Call) and _is(g.iter.func, "range") and len(g.iter.args) == 1
+                    and not g.iter.keywords and isinstance(g.iter.args[0], ast.Attribute)
+                    and _is(g.iter.args[0].value, me)
+                    and g.iter.args[0].attr in dict(SIZE_FN, size="SSize")):
+                plan = (NAMED_PERIOD[e.func.value.attr], _date_unit(e.args[1], envc),
+                        dict(SIZE_FN, size="SSize")[g.iter.args[0].attr])
+        if plan is None:
+            raise TranslationError(f"{_where(what, n.body[0])}: expected 'return [self.<this_year|first_*>.offset(i, "
+                                   f"DateUnit.X) for i in range(self.<size|size_in_*>)]', got '{_src(n.body[0]).splitlines()[0]}'")
+        lines.append(f"  {'else if' if lines else 'if'} {c} then Some ({plan[0]}, {plan[1]}, {plan[2]})")
+        k += 1
+    if not lines:
+        raise TranslationError(f"{what}: no per-unit branch found")
+    if not _raises_value_error(rest[k:], env):
+        at = rest[k] if k < len(rest) else fn
+        raise TranslationError(f"{_where(what, at)}: after the per-unit branches, expected the final raise ValueError")
+    lines.append("  else None.")
+    return "\n".join([
+        "(* Period.get_subperiods(unit), the test before the dispatch: true = raises ValueError *)",
+        "Definition gen_subperiods_guard (self_unit sub_unit : unit_t) : bool :=",
+        _render_chain(chain),
+        "",
+        "(* Period.get_subperiods(unit): [base.offset(i, offset unit) for i in range(count)];",
+        "   None = raises ValueError *)",
+        "Definition gen_subperiods_choice (sub_unit : unit_t) : option (named_period * unit_t * size_fn) :=",
+    ] + lines)
+
+
+def render_guards_period():
+    return "\n".join(GUARDS_HEADER) + "\n" + guard_subperiods() + "\n"
 
 
 def render_guards():
@@ -693,6 +775,13 @@ def render():
 
 LAST_GUARD_ERROR = None
 
+# generated file -> renderer.  One file per group of decisions: a function that cannot be
+# translated breaks only the proof obligations stated against its own file.
+GENERATED = [
+    ("Guards.v", lambda: render_guards()),                 # engine guards            (props/C03.v)
+    ("GuardsPeriod.v", lambda: render_guards_period()),    # Period.get_subperiods    (props/C04.v)
+]
+
 
 def _write(p, text):
     if not p.exists() or p.read_text() != text:
@@ -703,7 +792,7 @@ def _write(p, text):
 
 
 def main(out_path):
-    """Writes <out_path> (Tables.v) and Guards.v next to it.  A table that cannot be
+    """Writes <out_path> (Tables.v) and the Guards*.v files next to it.  A table that cannot be
     translated raises TranslationError (nothing can be built).  A decision structure that
     cannot be translated leaves a Guards.v that does not compile and carries the message:
     every proof obligation stated against the regenerated guards fails, the rest of the
@@ -711,14 +800,15 @@ def main(out_path):
     global LAST_GUARD_ERROR
     p = pathlib.Path(out_path)
     changed = _write(p, render())
-    try:
-        text = render_guards()
-        LAST_GUARD_ERROR = None
-    except TranslationError as e:
-        text = render_guards_failure(e)
-        LAST_GUARD_ERROR = str(e)
-        print(f"gen_tables: TRANSLATION FAILED: {e}", file=sys.stderr)
-    changed = _write(p.parent / "Guards.v", text) or changed
+    LAST_GUARD_ERROR = None
+    for name, fn in GENERATED:
+        try:
+            text = fn()
+        except TranslationError as e:
+            text = render_guards_failure(e)
+            LAST_GUARD_ERROR = str(e)
+            print(f"gen_tables: TRANSLATION FAILED ({name}): {e}", file=sys.stderr)
+        changed = _write(p.parent / name, text) or changed
     return changed
 
 
